@@ -225,6 +225,25 @@ func (e *Engine) Run(fn *ssa.Function, name string) {
 	if nw < 1 {
 		nw = 1
 	}
+	if os.Getenv("VERIF_SLOWLOG") != "" {
+		stopMon := make(chan struct{})
+		defer close(stopMon)
+		go func() {
+			for {
+				select {
+				case <-stopMon:
+					return
+				case <-time.After(10 * time.Second):
+					mu.Lock()
+					q, a := len(work), active
+					mu.Unlock()
+					e.mu.Lock()
+					fmt.Fprintf(os.Stderr, "PROGRESS paths=%d queue=%d active=%d results=%d ends=%v\n", e.Paths, q, a, len(e.Results), e.Ends)
+					e.mu.Unlock()
+				}
+			}
+		}()
+	}
 	var wg sync.WaitGroup
 	for i := 0; i < nw; i++ {
 		wg.Add(1)
